@@ -190,6 +190,22 @@ theorem slotOf_eraseL (fs : Fields) (k : String) :
       simp only []
       cases assoc k cs <;> rfl
 
+theorem appendSlot_eraseL (fs : Fields) (k : String) : appendSlot (eraseL fs) k = appendSlot fs k := by
+  unfold appendSlot
+  cases plusBase k with
+  | none => rfl
+  | some b =>
+    simp only [assoc_eraseL]
+    cases assoc b fs with
+    | none => rfl
+    | some n =>
+      cases n with
+      | group w gfs => simp [eraseN, appendable]
+      | leaf ty rq d => simp [eraseN]
+      | classArg rq imp cls => simp [eraseN]
+      | listOf rq it => simp [eraseN]
+      | subcommands rq cs => simp [eraseN_sub]
+
 mutual
 /-- **`validate` does not read the whole-group flags unless a group key holds a string** -/
 theorem chkVal_erase {ld : String → Val} : ∀ (pre : Path) (cut : Nat) (item : Bool) (n : Node) (v : Val),
@@ -224,7 +240,7 @@ theorem walk_erase {ld : String → Val} : ∀ (pre : Path) (cut : Nat) (fs : Fi
       have hv : noStrV n v = true := by simpa [hn] using h.1
       exact chkVal_erase (pre ++ [.key k]) cut false n v hv
     | sect cfs => rfl
-    | none => rfl
+    | none => simp only [appendSlot_eraseL]
 end
 
 theorem validate_erase {ld : String → Val} (fs : Fields) (kvs : KV) (h : noStrKVs fs kvs = true) :
